@@ -36,6 +36,11 @@ UNITS = {
     "m/s4": (1, -4, 0, 0), "m/s5": (1, -5, 0, 0), "km/s/day4": (1, -5, 0, 0),
     "km": (1, 0, 0, 0), "kg": (0, 0, 0, 1), "1/day": (0, -1, 0, 0), "rad/s": (0, -1, 1, 0), "km2/s": (2, -1, 0, 0),
     "Msun": (0, 0, 0, 1), "deg2": (0, 0, 2, 0),
+    # high-order trend terms and their "unnamed dimension" neighbours (astropy has no physical-type name beyond
+    # length/time^6, so a check that compares type *names* cannot tell these apart)
+    "km/s/day5": (1, -6, 0, 0), "m/s7": (1, -7, 0, 0), "km/s/day6": (1, -7, 0, 0), "km/s/day7": (1, -8, 0, 0),
+    "m/s9": (1, -9, 0, 0), "km/s/day8": (1, -9, 0, 0), "km/s/day9": (1, -10, 0, 0),
+    "kg m/s/day6": (1, -7, 0, 1), "km2/s/day7": (2, -8, 0, 0), "km/day9": (1, -9, 0, 0), "rad/s8": (0, -8, 1, 0),
 }
 BY_DIM = {}
 for _u, _d in UNITS.items():
@@ -437,7 +442,7 @@ def single_mutations(spec, rng):
     return out
 
 
-BASES = [(1, 0), (2, 1), (3, 2), (0, 0), (1, 3), (4, 0), (2, 2), (1, 1)]
+BASES = [(1, 0), (2, 1), (8, 1), (3, 2), (0, 0), (1, 3), (4, 0), (2, 2), (1, 1), (9, 0)]
 
 
 def grid_case(ctx, g, rng, index):
@@ -449,7 +454,7 @@ def grid_case(ctx, g, rng, index):
 
 
 def random_case(ctx, g, rng):
-    p = int(rng.choice([1, 1, 2, 3, 0, 5]))
+    p = int(rng.choice([1, 1, 2, 3, 0, 5, 7, 8, 9]))
     q = int(rng.choice([0, 0, 1, 2, 4]))
     spec = base_spec(rng, p, q)
     k = int(rng.choice([0, 2, 2, 3]))
@@ -942,7 +947,7 @@ def setup(ctx):
 
 
 def plan(ctx):
-    cases = [("grid", i) for i in range(16 if ctx.thorough else 3)]
+    cases = [("grid", i) for i in range(20 if ctx.thorough else 4)]
     cases += [("random", i) for i in range(4000 if ctx.thorough else 150)]
     cases += [("default", i) for i in range(12 if ctx.thorough else 2)]
     cases += [("data", i) for i in range(4000 if ctx.thorough else 220)]
